@@ -69,11 +69,13 @@ class FileObj(Value):
         return self
 
 
-def may_raise(interp, origin, base=Exception):
-    """Fork: the current operation raises an exception of an unknown subclass of `base`."""
+def may_raise(interp, origin, base=Exception, never=()):
+    """Fork: the current operation raises an exception of an unknown subclass of `base` (but of none of `never`)."""
     ctx = interp.ctx
     if ctx.branch(z3.Bool(ctx.fresh(f"raises.{origin}"))):
         cls = SymExcClass(ctx.fresh(f"E.{origin}"), base)
+        for c in never:
+            ctx.assume(z3.Not(cls.sub_pred(c)))
         ctx.event("raise", origin)
         raise PyRaise(SymExc(cls, origin))
 
@@ -126,6 +128,7 @@ def havoc_call_factory(spec=None):
         ctx = interp.ctx
         tag = getattr(fn, "tag", repr(fn))
         ctx.event("call", tag)
+        havoc_line_iterators(interp, args)
         may_raise(interp, tag)
         if spec is not None:
             r = spec(interp, tag, args, kwargs)
@@ -134,6 +137,19 @@ def havoc_call_factory(spec=None):
         return Opaque(ctx.fresh(f"result.{tag}"))
 
     return havoc
+
+
+def havoc_line_iterators(interp, args):
+    """A callee that receives a LineIterator may read lines and push lines back: lineno and stack become unknown."""
+    from .values import Obj, SInt
+
+    ctx = interp.ctx
+    for a in args:
+        if isinstance(a, Obj) and a.cls.__name__ == "LineIterator":
+            a.fields["lineno"] = SInt(ctx.fresh_int("lit.lineno"))
+            n = ctx.fresh_int("lit.depth")
+            ctx.assume(n >= 0)
+            a.fields["stack"] = SList(SSeq(n, lambda i: SU(z3.Const(f"pushed[{i}]", U), str), list))
 
 
 def abstract_iterator(tag, item_factory=None, may_fail=True):
@@ -145,7 +161,8 @@ def abstract_iterator(tag, item_factory=None, may_fail=True):
             ctx.event("exhausted", tag)
             return _MISSING
         if may_fail:
-            may_raise(interp, f"next({tag})")
+            # a StopIteration from next() *is* exhaustion (the other case), so it is excluded here
+            may_raise(interp, f"next({tag})", never=(StopIteration,))
         ctx.event("pull", tag, k)
         if item_factory is not None:
             return item_factory(interp, k)
